@@ -14,6 +14,7 @@ def slice_upper(sub):
 
 def run(repo, res):
     res.rule("R13.1", "the reported times are lik.timepoints indexed by the integer assignment vector; nodes that are never a child take the argmax of their inside row")
+    res.rule("R13.3", "clone consistency: the Poisson likelihood of an edge is the same expression (mutations, (parent time - grid + eps) * rate * span) in the first-parent branch and in the later-parents branch of outside_maximization")
     res.rule("R13.2", "running-minimum abstract domain: the bound Y is initialised from the first parent's assigned index and updated only by Y := min(Y, index(parent)), hence Y <= index(parent) for every parent; every per-parent likelihood, the running product and the inside row entering the final argmax are sliced [: Y + 1]; parents are assigned before their children (traversal by descending child age)")
     f = repo.fn("discrete", "BeliefPropagation.outside_maximization")
     d = Defs(f)
@@ -80,6 +81,23 @@ def run(repo, res):
                 n_sl += 1
                 res.require(up == Ytxt, "R13.2", f"discrete.outside_maximization slice `{U(n)[:50]}` is bounded by {Y} + 1", f"bounded by `{up}`", repo.loc(f, n), up)
     res.floor("bounded_slices", n_sl, 6)
+    # R13.3 -- the first-parent branch and the later-parent branch score an edge identically
+    from .c10 import block_defs, inline_block
+
+    pairs = []
+    for s, g in stmts(f):
+        if isinstance(s, ast.If) and s.orelse:
+            db, do = block_defs(s.body), block_defs(s.orelse)
+            common = [k for k in db if k in do and isinstance(db[k], ast.Call) and isinstance(do[k], ast.Call) and U(db[k].func) == U(do[k].func) and U(db[k].func) not in ("self.lik.ratio", "self.lik.combine")]
+            for k in common:
+                if U(db[k].func) in ("poisson",) or "pmf" in U(db[k].func):
+                    pairs.append((s, k, db, do))
+    if not pairs:
+        raise AnalysisError("R13.3: the two per-edge likelihood evaluations (first parent / later parents) were not found")
+    for s, k, db, do in pairs:
+        a = U(inline_block(db[k], {n: v for n, v in db.items() if n not in (k, Y)})).replace(" ", "")
+        b = U(inline_block(do[k], {n: v for n, v in do.items() if n not in (k, Y)})).replace(" ", "")
+        res.require(a == b, "R13.3", f"discrete.outside_maximization `{k}` is the same function of the edge for the first and for later parents", f"first parent: `{a[:160]}`; later parents: `{b[:160]}`: edges to a second parent are scored by a different likelihood, so the argmax is not that of the documented product", repo.loc(f, s), a[:120])
     # traversal order: parents before children
     it = [n for n in own_nodes(f) if isinstance(n, ast.For) and isinstance(n.target, ast.Tuple) and U(n.target.elts[0]) == "child"]
     ok = len(it) == 1 and "edges_by_child_then_parent_desc" in U(it[0].iter)
@@ -91,6 +109,7 @@ def run(repo, res):
 
 _UPD = "                    if cur_parent_index < youngest_par_index:\n                        youngest_par_index = cur_parent_index\n"
 VARIANTS = [
+    dict(name="eps-dropped-for-later-parents", mod="discrete", expect="fire", rule="R13.3", old="                    ll_mut = poisson(\n                        mut_edges[edge.id],\n                        (\n                            parent_time\n                            - self.lik.timepoints[: youngest_par_index + 1]\n                            + eps\n                        )\n                        * self.lik.mut_rate\n                        * edge.span,\n                    )\n                    result[: youngest_par_index + 1]", new="                    ll_mut = poisson(\n                        mut_edges[edge.id],\n                        (parent_time - self.lik.timepoints[: youngest_par_index + 1])\n                        * self.lik.mut_rate\n                        * edge.span,\n                    )\n                    result[: youngest_par_index + 1]"),
     dict(name="running-max", mod="discrete", expect="fire", rule="R13.2", old=_UPD, new="                    if cur_parent_index > youngest_par_index:\n                        youngest_par_index = cur_parent_index\n"),
     dict(name="update-dropped", mod="discrete", expect="fire", rule="R13.2", old=_UPD, new=""),
     dict(name="bound-off-by-one", mod="discrete", expect="fire", rule="R13.2", old="            inside_val = self.inside[child][: (youngest_par_index + 1)]", new="            inside_val = self.inside[child][: (youngest_par_index + 2)]"),
